@@ -266,9 +266,14 @@ def _recipes(quals):
             a.learn(torch.tensor(0.3 + 0.04 * i), i + 1, True)
 
     R.append(Recipe(LeapfrogIntegrator, "", lambda mode, sent: _integrator(), warm_integrator))
-    R.append(Recipe(mo.ScalerOperator, "", lambda mode, sent: mo.ScalerOperator("op", _params(), 1.0, 0.24, 0.6), _warm_operator(True)))
-    R.append(Recipe(mo.SlidingWindowOperator, "", lambda mode, sent: mo.SlidingWindowOperator("op", _params(), 1.0, 0.24, 0.4), _warm_operator(True)))
-    R.append(Recipe(mo.DirichletOperator, "", lambda mode, sent: mo.DirichletOperator("op", [_P("freqs", [0.2, 0.3, 0.5])], 1.0, 0.24, 50.0), _warm_operator(True)))
+    # acceptance windows: the constructor default (100), a short one that fills up within the warm-up and continuation lengths,
+    # and the from_json default (False)
+    def windows(mk):
+        return [("", lambda mode, sent: mk()), ("window=4", lambda mode, sent: mk(acceptance_window_length=4)),
+                ("window=False", lambda mode, sent: mk(acceptance_window_length=False))]
+    R.append(Recipe(mo.ScalerOperator, "", windows(lambda **kw: mo.ScalerOperator("op", _params(), 1.0, 0.24, 0.6, **kw)), _warm_operator(True)))
+    R.append(Recipe(mo.SlidingWindowOperator, "", windows(lambda **kw: mo.SlidingWindowOperator("op", _params(), 1.0, 0.24, 0.4, **kw)), _warm_operator(True)))
+    R.append(Recipe(mo.DirichletOperator, "", windows(lambda **kw: mo.DirichletOperator("op", [_P("freqs", [0.2, 0.3, 0.5])], 1.0, 0.24, 50.0, **kw)), _warm_operator(True)))
     R.append(Recipe(GMRFOp, "", lambda mode, sent: GMRFOp("op", None, types.SimpleNamespace(field=_P("field", [0.1, 0.2, 0.3]), precision=_P("tau", [1.5])), 1.0, 0.24, 2.0), _warm_operator(False)))
     R.append(Recipe(ad.AdaptiveStepSize, "", [("", lambda mode, sent: ad.AdaptiveStepSize("ass", _integrator(), 0.8)),
                                               ("use_acceptance_rate", lambda mode, sent: ad.AdaptiveStepSize("ass", _integrator(), 0.8, use_acceptance_rate=True))], _warm_adaptor))
@@ -1418,6 +1423,16 @@ def _main_config(name, ck):
         hmc["adaptors"] = [{"id": "ass", "type": "AdaptiveStepSize", "integrator": "leap"}]
         mcmc["operators"] = [hmc]
         return [joint, mcmc]
+    if name == "MCMC+operators on a view and on a concatenation":
+        # the operators act on derived parameters: what the checkpoint must carry is the underlying Parameter
+        view = {"id": "x.head", "type": "ViewParameter", "parameter": "x", "indices": "0:1"}
+        cat = {"id": "x.cat", "type": "CatParameter", "parameters": ["x", {"id": "y", "type": "Parameter", "tensor": [0.2]}]}
+        prior_y = {"id": "py", "type": "Distribution", "distribution": "torch.distributions.Normal", "x": "y",
+                   "parameters": {"loc": 0.0, "scale": 1.0}}
+        mcmc["joint"] = {"id": "jj", "type": "JointDistributionModel", "distributions": ["joint", prior_y]}
+        mcmc["operators"] = [{"id": "slide.view", "type": "SlidingWindowOperator", "parameters": ["x.head"], "width": 0.5},
+                             {"id": "slide.cat", "type": "SlidingWindowOperator", "parameters": ["x.cat"], "width": 0.3}]
+        return [joint, view, cat, mcmc]
     if name == "Optimizer+Adam+StepLR":
         return [joint, {"id": "opt", "type": "Optimizer", "algorithm": "torch.optim.Adam", "options": {"lr": 0.1}, "maximize": True, "loss": "joint",
                         "parameters": ["x"], "iterations": 12, "checkpoint": ck, "checkpoint_frequency": 4,
@@ -1425,7 +1440,7 @@ def _main_config(name, ck):
     raise KeyError(name)
 
 
-_MAIN = ["MCMC+Scaler+SlidingWindow", "MCMC+HMC+AdaptiveStepSize+MassMatrixAdaptor", "MCMC+HMC+DualAveragingStepSize", "MCMC+HMC+find_reasonable_step_size",
+_MAIN = ["MCMC+Scaler+SlidingWindow", "MCMC+operators on a view and on a concatenation", "MCMC+HMC+AdaptiveStepSize+MassMatrixAdaptor", "MCMC+HMC+DualAveragingStepSize", "MCMC+HMC+find_reasonable_step_size",
          "Optimizer+Adam+StepLR"]
 
 
@@ -1516,6 +1531,10 @@ def _main_case(name):
             return subprocess.run([sys.executable, "-c", _DRIVER, REPO, out, cfg, "-s", "7"] + extra, cwd=d, env=env,
                                   capture_output=True, text=True, timeout=300)
         r1 = run([])
+        if r1.returncode != 0 and any(w in r1.stderr for w in ("save_full_state", "save_parameters", "state_dict")):
+            # the run died while WRITING its checkpoint: nothing can be restarted
+            return {"config": name, "restart_rc": None, "restart_error": ["while writing the checkpoint:"] + r1.stderr.strip().splitlines()[-3:],
+                    "diffs": [], "continue_rc": None}
         if r1.returncode != 0 or not os.path.exists(ck):
             raise Undecided("first run of main() did not produce a checkpoint (rc=%s): %s" % (r1.returncode, r1.stderr[-400:]))
         saved = json.load(open(ck))
